@@ -59,6 +59,8 @@ type vEnv struct {
 	lookupOf              []int      // per node: -2 not decided, -1 none, else target
 	lookupGot             []any
 	userProcFalse         bool // a user processor may answer false in PostProcessAfterInstantiation
+	replaceNode           int  // component replaced before instantiation (-1 = none)
+	replacement           *vWrap
 	regOrder              []int
 }
 
@@ -163,6 +165,17 @@ type vProc struct{ env *vEnv }
 func (p *vProc) LazyInit() {}
 
 func (p *vProc) PostProcessBeforeInstantiation(m *component_definition.Meta, n string) (any, error) {
+	e := p.env
+	// a processor may supply a ready-made replacement for one component instead of letting the
+	// container populate and initialise it
+	if e.replaceNode >= 0 {
+		if v := vNodeOf(m.Raw); v != nil && v.idx == e.replaceNode {
+			if e.replacement == nil {
+				e.replacement = &vWrap{inner: m.Raw, gen: 100}
+			}
+			return e.replacement, nil
+		}
+	}
 	return nil, nil
 }
 func (p *vProc) PostProcessAfterInstantiation(c any, n string) (bool, error) { return true, nil }
@@ -324,7 +337,7 @@ var vNames = []string{"a", "b", "c", "d", "e"}
 // newMC builds the mini-container.  points: bitmask 1=P0 2=P1 4=S0.
 // reqMode: 0 = every point required, 1 = symbolic per point, 2 = every point optional.
 func newMC(n, points int, lazyMix bool, reqMode int, faults int) *vEnv {
-	e := &vEnv{n: n, points: points, faultsLeft: faults, wrapNode: -1}
+	e := &vEnv{n: n, points: points, faultsLeft: faults, wrapNode: -1, replaceNode: -1}
 	e.f = &defaultFactory{
 		definitionRegistry:                support.DefaultDefinitionRegistry(),
 		singletonComponentRegistry:        support.DefaultSingletonComponentRegistry(),
@@ -567,12 +580,18 @@ func VerifC03() {
 	e.wrapAfter = nd.Bool()
 	e.sameWrapper = nd.Bool()
 	e.lookupMode = nd.Param("LOOKUP", 0) == 1
+	if nd.Param("REPLACE", 0) == 1 && nd.Bool() {
+		e.replaceNode = nd.Choose(n)
+	}
 	err := e.f.Refresh()
 	if err != nil {
 		nd.Cover("start failed")
 		return
 	}
 	nd.Cover("start ok")
+	if e.replacement != nil {
+		nd.Cover("replaced before instantiation")
+	}
 	if len(e.wrappers) > 0 {
 		nd.Cover("wrapped")
 	}
@@ -783,7 +802,7 @@ func (e *vEnv) verOf(c any) int {
 }
 
 func vStartFixed(n, points int, graph [][3][]int, wrapNode int, wrapEarly, wrapAfter, same bool, order []int) vSnap {
-	e := &vEnv{n: n, points: points, wrapNode: wrapNode, wrapEarly: wrapEarly, wrapAfter: wrapAfter, sameWrapper: same, fixed: graph}
+	e := &vEnv{n: n, points: points, wrapNode: wrapNode, wrapEarly: wrapEarly, wrapAfter: wrapAfter, sameWrapper: same, fixed: graph, replaceNode: -1}
 	e.f = &defaultFactory{
 		definitionRegistry:                support.DefaultDefinitionRegistry(),
 		singletonComponentRegistry:        support.DefaultSingletonComponentRegistry(),
